@@ -231,8 +231,14 @@ func c03HeadChange(c *Case, rng *Rng) {
 
 // ---------------------------------------------------------------- lock windows
 
+var c03NoLockPoints atomic.Bool
+
 func c03LockWindows(c *Case, rng *Rng) {
 	if tooManyHangs(c) {
+		return
+	}
+	if c03NoLockPoints.Load() {
+		c.Inconcl = "no yield point queue.lock.* in this checkout (see the first case of the family)"
 		return
 	}
 	caseStart := time.Now()
@@ -336,6 +342,12 @@ func c03LockWindows(c *Case, rng *Rng) {
 			a, name = x, x.Name
 		case <-time.After(15 * time.Second):
 			why = "the-worker-of-queue-1-stopped-polling-its-queue"
+		}
+		if a == nil && i == 0 {
+			// not one arrival: this checkout has no yield points queue.lock.* (repo commit "verif hooks: yield points queue.lock…")
+			c03NoLockPoints.Store(true)
+			c.Inconcl = "no yield point queue.lock.* was reached: the checkout lacks the verif hooks of this family"
+			return
 		}
 		if a == nil {
 			break
